@@ -136,6 +136,15 @@ def judge(case):
             tags.append("missing-field")
             if got[0] != "error":
                 viol.append("field %r missing but evaluation returned %r instead of raising | %s | inputs=%r" % (f, got, text, env_m))
+            # ... no matter how much unrelated context the caller passes along with the incomplete call
+            many = dict(env_m, **{"ctx_%d" % i: i for i in range(12)})
+            many.update({k: v for k, v in {f + "_": 1, f.upper() if f.upper() != f else f + "X": 2, "_" + f: 3}.items()
+                         if k not in M.all_fields(prog)})
+            got = sut.call(ev, many)
+            tags.append("missing-field-among-many-extras")
+            if got[0] != "error":
+                viol.append("field %r missing (15 unrelated extra arguments given) but evaluation returned %r instead of raising | %s | inputs=%r"
+                            % (f, got, text, many))
     return {"viol": viol[:6], "nontrivial": nt, "tags": sorted(set(tags)), "key": [text, case["inputs"]],
             "sample": {"text": text[:300], "inputs": [M.dec_inputs(e) for e in case["inputs"][:2]], "extra": extra}}
 
